@@ -25,6 +25,9 @@ def _compile(entry):
     env = {"L": api.L, "band": core.band, "bor": core.bor, "bnot": core.bnot, "implies": core.implies,
            "len": api.L, "isinstance": isinstance, "bytes": bytes, "str": str, "int": int, "tuple": tuple,
            "any": any, "all": all, "list": list, "set": set, "sorted": sorted, "min": min, "max": max}
+    import importlib
+    # region predicates may use helper predicates exported by the bounded module of their property
+    env["parts"] = lambda p: importlib.import_module("contracts.parts.%s_bounded" % p)
     code = compile(entry["region"], "<known-finding %s>" % entry.get("id"), "eval")
     return lambda i, what="": eval(code, env, {"i": i, "case": i, "what": what})
 
